@@ -44,6 +44,14 @@ NATIVE = {
         ("C15:Bag.json", "histogrammar.primitives.bag.Bag.fromJsonFragment", "bounded:single-point-mutations",
          "all single-point structural mutations (delete key, add key, retype value, rename type, negative entries, version) of 6 Bag documents"),
     ],
+    "C01": [
+        ("C01:Bag.vector", "histogrammar.primitives.bag.Bag.__add__", "bounded:vector-bags-merge-like-one-fill",
+         "Bag of range N2 / N3 (outside the wf of the proved Bag contracts): up to 3 fills of vectors over {0.5, -1, nan, inf} split over two Bags: a + b, b + a, a + zero + b and a += b equal filling everything into one Bag"),
+    ],
+    "C08": [
+        ("C08:Bag.vector", "histogrammar.primitives.bag.Bag.__mul__", "bounded:vector-bags-scale-like-refill",
+         "Bag of range N2 / N3: h * 2 equals filling with doubled weights; h * 0 is empty"),
+    ],
     "C02": [
         ("C02:Bag.vector", "histogrammar.primitives.bag.Bag._update", "bounded:vector-keys-form-a-value-to-weight-map",
          "Bag of range N2 / N3 (outside the wf of the proved Bag.fill contract, which covers ranges N and S): sequences of up to 3 fills of vectors over {0.5, -1, nan (a fresh float object each time), inf}: one key per distinct vector with NaN == NaN, weights add up to entries, content independent of the fill order, JSON round trip keeps keys and weight"),
